@@ -14,6 +14,7 @@ import (
 	"path/filepath"
 	"strconv"
 	"strings"
+	"sync/atomic"
 	"time"
 
 	"github.com/blevesearch/bleve/v2"
@@ -25,9 +26,10 @@ import (
 )
 
 type conf struct {
-	name string
-	keep int
-	cfg  map[string]interface{}
+	shrink bool // shrinkAlphabet, every history starts with its first operation
+	name   string
+	keep   int
+	cfg    map[string]interface{}
 }
 
 func (c conf) config() map[string]interface{} {
@@ -41,6 +43,7 @@ func (c conf) config() map[string]interface{} {
 
 type op struct {
 	batch  lww.Batch
+	multi  []lww.Batch // a run of batches (each with its own seq), one segment each
 	layout string
 }
 
@@ -48,7 +51,31 @@ func (o op) String() string {
 	if o.layout != "" {
 		return o.layout
 	}
+	if o.multi != nil {
+		var s []string
+		for _, b := range o.multi {
+			s = append(s, b.String())
+		}
+		return "{" + strings.Join(s, " ; ") + "}"
+	}
 	return o.batch.String()
+}
+
+// shrinkAlphabet: histories in which the newest segments disappear again (a delete-only batch
+// obsoletes every document of the two newest segments, so the newest root names only older, lower
+// numbered files while retained rollback points still name the higher ones), followed by reopen and
+// further writes. The first operation of every history is the run of three single-document batches.
+func shrinkAlphabet() []op {
+	I := func(id string, v int) lww.Op { return lww.Op{Kind: "I", ID: id, V: v} }
+	D := func(id string) lww.Op { return lww.Op{Kind: "D", ID: id} }
+	return []op{
+		{multi: []lww.Batch{{I("a", 1)}, {I("b", 1)}, {I("c", 1)}}},
+		{batch: lww.Batch{D("b"), D("c")}},
+		{layout: "reopen"},
+		{batch: lww.Batch{I("d", 1)}},
+		{batch: lww.Batch{I("b", 2)}},
+		{layout: "forcemerge"},
+	}
 }
 
 func alphabet() []op {
@@ -61,7 +88,7 @@ func alphabet() []op {
 	}
 }
 
-var ids = []string{"a", "b", "zz"}
+var ids = []string{"a", "b", "c", "d", "zz"}
 var keys = []string{"seq"}
 
 func copyDir(src, dst string) error {
@@ -96,6 +123,7 @@ func Run(r *mc.Run) {
 		{name: "keep1-aggressive", keep: 1, cfg: map[string]interface{}{"scorchMergePlanOptions": bx.AggressiveMergePlan}},
 		{name: "keep3-default", keep: 3},
 		{name: "keep2-partial-merge", keep: 2, cfg: map[string]interface{}{"scorchMergePlanOptions": bx.PartialMergePlan}},
+		{name: "keep8-nomerge-newest-segments-disappear", keep: 8, shrink: true, cfg: map[string]interface{}{"scorchMergePlanOptions": bx.NoMergePlan}},
 	}
 	if !r.Quick() {
 		confs = append(confs,
@@ -120,14 +148,37 @@ func Run(r *mc.Run) {
 		}
 		c := c
 		t0 := time.Now()
+		ops, depth := ops, depth
+		if c.shrink {
+			ops, depth = shrinkAlphabet(), 4
+		}
 		seq := mc.Seq{N: len(ops), Depth: depth, Workers: 12, OpName: func(i int) string { return ops[i].String() }}
 		seq.Exec = func(path []int) (string, bool) {
 			var key string
 			ok := true
+			if c.shrink && len(path) > 0 && path[0] != 0 {
+				return "", false // the family starts from the three-segment run
+			}
 			rep := map[string]any{"configuration": c.name, "path": seq.PathString(path)}
-			done, pv, st := mc.WithTimeout(90*time.Second, func() { key, ok = execPath(r, c, ops, path, rep) })
+			var stage atomic.Value
+			stage.Store("start")
+			done, pv, st := mc.WithTimeout(40*time.Second, func() { key, ok = execPath(r, c, ops, path, rep, &stage) })
 			if !done {
-				r.Cap("an execution hung (>90s) in " + c.name + "; abandoned")
+				// a call of the index API has not returned for 40 s (an execution takes well under a
+				// second): run the same history once more on a fresh directory; only if the same call
+				// is stuck again is it reported — as a violation where the property promises that
+				// call works (a write accepted after Rollback, reopening), else as a cap
+				first := stage.Load().(string)
+				var stage2 atomic.Value
+				stage2.Store("start")
+				rep2 := map[string]any{"configuration": c.name, "path": seq.PathString(path)}
+				done2, _, _ := mc.WithTimeout(40*time.Second, func() { execPath(r, c, ops, path, rep2, &stage2) })
+				if !done2 && stage2.Load().(string) == first {
+					rep["stuck_in"] = first
+					r.Violation("never-returns:"+strings.SplitN(first, " ", 2)[0], fmt.Sprintf("%v: the call %q did not return within 40 s, twice in a row (fresh directory each time)", rep, first), rep)
+				} else {
+					r.Cap("an execution was slow or hung once (>40s) in " + c.name + " at " + first + "; not reproduced, abandoned")
+				}
 				return "", false
 			}
 			if pv != nil {
@@ -141,7 +192,7 @@ func Run(r *mc.Run) {
 	}
 }
 
-func execPath(r *mc.Run, c conf, ops []op, path []int, rep map[string]any) (string, bool) {
+func execPath(r *mc.Run, c conf, ops []op, path []int, rep map[string]any, stage *atomic.Value) (string, bool) {
 	base := mc.ScratchDir("c13")
 	defer os.RemoveAll(base)
 	dir := base + "/idx"
@@ -162,18 +213,25 @@ func execPath(r *mc.Run, c conf, ops []op, path []int, rep map[string]any) (stri
 	seqNo := 0
 	for si, oi := range path {
 		o := ops[oi]
+		stage.Store(fmt.Sprintf("history-step %d %s", si, o))
 		switch o.layout {
 		case "":
-			seqNo++
-			b := append(lww.Batch{}, o.batch...)
-			b = append(b, lww.Op{Kind: "S", ID: "seq", V: seqNo})
-			if err := lww.ExecBatch(idx, b); err != nil {
-				r.Violation("batch-error:"+c.name, fmt.Sprintf("%v: step %d: %v", rep, si, err), rep)
-				return "", false
+			bs := o.multi
+			if bs == nil {
+				bs = []lww.Batch{o.batch}
 			}
-			m.Apply(b)
-			states = append(states, m.Key())
-			models = append(models, m.Clone())
+			for _, ob := range bs {
+				seqNo++
+				b := append(lww.Batch{}, ob...)
+				b = append(b, lww.Op{Kind: "S", ID: "seq", V: seqNo})
+				if err := lww.ExecBatch(idx, b); err != nil {
+					r.Violation("batch-error:"+c.name, fmt.Sprintf("%v: step %d: %v", rep, si, err), rep)
+					return "", false
+				}
+				m.Apply(b)
+				states = append(states, m.Key())
+				models = append(models, m.Clone())
+			}
 		case "forcemerge":
 			if err := bx.Scorch(idx).ForceMerge(context.Background(), nil); err != nil {
 				r.Violation("forcemerge-error:"+c.name, fmt.Sprintf("%v: step %d: %v", rep, si, err), rep)
@@ -195,6 +253,7 @@ func execPath(r *mc.Run, c conf, ops []op, path []int, rep map[string]any) (stri
 		bx.Quiesce(idx, 2*time.Second)
 	}
 	layout := bx.ScorchLayout(idx)
+	stage.Store("close after the history")
 	if err := idx.Close(); err != nil {
 		r.Violation("close-error:"+c.name, fmt.Sprintf("%v: final close: %v", rep, err), rep)
 	}
@@ -242,10 +301,12 @@ func execPath(r *mc.Run, c conf, ops []op, path []int, rep map[string]any) (stri
 			panic(err)
 		}
 		r.Eval(1)
+		stage.Store(fmt.Sprintf("rollback to point %d", pi))
 		if err := scorch.Rollback(cp+"/store", p); err != nil {
 			fail("rollback-error", "Rollback to point %d (seq %d): %v", pi, q, err)
 			continue
 		}
+		stage.Store(fmt.Sprintf("open-after-rollback to point %d", pi))
 		i2, err := bleve.OpenUsing(cp, c.config())
 		if err != nil {
 			fail("open-after-rollback", "Open after Rollback to point %d (seq %d): %v", pi, q, err)
@@ -255,12 +316,15 @@ func execPath(r *mc.Run, c conf, ops []op, path []int, rep map[string]any) (stri
 			fail("state-after-rollback", "after Rollback to point %d (seq %d): %s", pi, q, strings.Join(bad, "; "))
 		}
 		nb := lww.Batch{{Kind: "I", ID: "n", V: 3}, {Kind: "S", ID: "seq", V: 99}}
+		stage.Store(fmt.Sprintf("write-after-rollback to point %d", pi))
 		if err := lww.ExecBatch(i2, nb); err != nil {
 			fail("write-after-rollback", "write after Rollback to point %d: %v", pi, err)
 		}
 		want := models[q].Clone()
 		want.Apply(nb)
+		stage.Store(fmt.Sprintf("close-after-rollback-write (point %d)", pi))
 		i2.Close()
+		stage.Store(fmt.Sprintf("reopen-after-rollback-write (point %d)", pi))
 		i3, err := bleve.OpenUsing(cp, c.config())
 		if err != nil {
 			fail("reopen-after-rollback-write", "reopen after Rollback+write (point %d): %v", pi, err)
